@@ -146,6 +146,11 @@ func runRule(c *Ctx, r *Rule) (obs []Ob, perr string) {
 		}
 	}()
 	obs = r.Run(c)
+	for _, extra := range extraObligations[r.ID] {
+		s := newSink(c, r.ID)
+		extra(c, s)
+		obs = append(obs, s.obs...)
+	}
 	for i := range obs {
 		if obs[i].Rule == "" {
 			obs[i].Rule = r.ID
@@ -360,4 +365,11 @@ func expandOrNone(n []string) []string {
 		return []string{"nothing to expand (every function is in the reference list)"}
 	}
 	return n
+}
+
+// extraObligations: additional obligations attached to a rule from another file (registerExtra).
+var extraObligations = map[string][]func(c *Ctx, s *obSink){}
+
+func registerExtra(ruleID string, f func(c *Ctx, s *obSink)) {
+	extraObligations[ruleID] = append(extraObligations[ruleID], f)
 }
